@@ -340,6 +340,50 @@ def _s3(program, res):
                 res.ok("C07-S3", "composed arrow's free table is b's free table")
             else:
                 res.fail_at("C07-S3", doa, "free-table", f"composed arrow uses free_table_key={kws['free_table_key']}, expected {bname}.free_table_key", c)
+    # no fallback reverses a composition.  `d >> c` evaluates c.act_on(d) = "c after d".  If c.act_on cannot handle d's class and hands
+    # the job back (`return b.act_on(self, …)`), the result is d.act_on(c) = "d after c": wrong whenever d's act_on *composes* with c's class
+    fam = {"ViewRepresentation": program.method("view_representations", "ViewRepresentation", "act_on", inherited=False),
+           "DataOpArrow": program.method("arrow", "DataOpArrow", "act_on", inherited=False),
+           "RecordMap": program.method("cdata", "RecordMap", "act_on", inherited=False)}
+
+    def handled_classes(m):
+        """family classes with an isinstance(b, <class>) branch in m (outside the hand-back itself)"""
+        other_p = [x for x in m.params() if x not in ("self", "correct_ordered_first_call")][0]
+        out = set()
+        for t in ast.walk(m.node):
+            if isinstance(t, ast.Call) and dotted_name(t.func) == "isinstance" and len(t.args) == 2 and unparse(t.args[0]) == other_p:
+                classes = t.args[1].elts if isinstance(t.args[1], ast.Tuple) else [t.args[1]]
+                for c in classes:
+                    nm = (dotted_name(c) or "").split(".")[-1]
+                    if nm in fam:
+                        out.add(nm)
+        return other_p, out
+
+    n_fb = 0
+    for cname, m in fam.items():
+        res.analysed(m)
+        other_p, handled = handled_classes(m)
+        fallbacks = [r for r in ast.walk(m.node) if isinstance(r, ast.Return) and isinstance(r.value, ast.Call) and isinstance(r.value.func, ast.Attribute)
+                     and r.value.func.attr == "act_on" and unparse(r.value.func.value) == other_p and r.value.args and unparse(r.value.args[0]) == "self"]
+        for fb in fallbacks:
+            n_fb += 1
+            for dname, dm in fam.items():
+                if dname in handled or dname == cname:
+                    continue
+                if "RecordMap" in (dname, cname):
+                    # C07 speaks about pipelines and arrows; what `record_map >> pipeline` should mean is outside it (observed: it returns
+                    # pipeline.convert_records(record_map), the same as pipeline >> record_map — see DESIGN.md 10.4)
+                    res.ok("C07-S3", f"{cname}.act_on hand-back for a {dname}: outside the property (record maps are not pipelines)", nontrivial=False)
+                    continue
+                _op, dhandled = handled_classes(dm)
+                if cname in dhandled:
+                    res.fail_at("C07-S3", m, f"fallback-reverses:{dname}>>{cname}",
+                                f"`{dname.lower()} >> {cname.lower()}` reaches {cname}.act_on, which has no branch for a {dname} and hands the job back "
+                                f"(`{unparse(fb.value)[:60]}`); {dname}.act_on composes *itself after* a {cname}, so the result is the {cname} followed by the "
+                                f"{dname} — the reverse of what `>>` means (the left operand first)", fb)
+                else:
+                    res.ok("C07-S3", f"{cname}.act_on hand-back for a {dname}: {dname}.act_on has no composing branch for a {cname} (it fails instead of reversing)")
+    res.expect_count("C07-S3", "act_on hand-backs inspected", n_fb, 3)
     # ViewRepresentation.act_on: equal column sets asserted before replace_leaves({key: b})
     vao = program.method("view_representations", "ViewRepresentation", "act_on", inherited=False)
     res.analysed(vao)
